@@ -1,5 +1,7 @@
 import WM.Model.FS
 import WM.Lemmas.FSRun
+import WM.Model.FSCodec
+import WM.Lemmas.FSCodec
 /-!
 C02 — a commit is atomic with respect to process crashes.
 
@@ -179,6 +181,95 @@ theorem pattern (ix : Name) (g : Nat) (t : List Char) :
   · unfold segOf
     rw [stripPrefix_mismatch ix ['t', 'm', 'p'] [] '_' '.' (by decide)]
 
+/-! ### The codec's file list and the leaked TOC temp file -/
+
+/-- **C02.segFiles_segOf.**  Every file of a W3 segment — as named by the codec itself
+    (`segFiles`: `<id>.seg`, or `.trm`, `.pst`, one `.<field>.col` per column, `.vps`), for *any*
+    column names — is recognised by the segment pattern `clean_files` uses, with its own segment id. -/
+theorem segFiles_segOf (ix segid : Name) (sh : SegShape) (hg : goodSegid segid = true) :
+    ∀ f ∈ segFiles (segmentId ix segid) sh, segOf ix f = some (segmentId ix segid) := by
+  intro f hf
+  obtain ⟨rest, rfl⟩ := mem_segFiles_form _ sh f hf
+  exact segOf_segmentId_dot ix segid rest hg
+
+/-- with the pattern as it was before the round-3 repair this is false: the column file of a field
+    named `é…` (or `-x`, `名前`, …) of a loose segment was never recognised, hence never cleaned -/
+example : segOfOld ['M'] (columnFilename (segmentId ['M'] ['a']) ['é', 't']) = none := by decide
+example : segOf ['M'] (columnFilename (segmentId ['M'] ['a']) ['é', 't']) = some ['M', '_', 'a'] :=
+  segFiles_segOf ['M'] ['a'] ⟨false, [['é', 't']], false⟩ (by decide) _ (by decide)
+
+/-- **C02.clean_codec.**  `clean_files` against the codec's file list: a file of a segment is deleted
+    exactly when it is in the listing and its segment is not referenced by the new TOC — so the
+    clean-up pass never removes a file of a referenced segment (which `SafeCommitTrace` demands of the
+    deletes after the rename) and removes every file of an unreferenced one (`Clean`). -/
+theorem clean_codec (ix segid : Name) (sh : SegShape) (gen : Nat) (sids listing : List Name)
+    (hix : GoodIx ix) (hg : goodSegid segid = true) :
+    ∀ f ∈ segFiles (segmentId ix segid) sh,
+      (f ∈ cleanFiles ix gen sids listing ↔ f ∈ listing ∧ segmentId ix segid ∉ sids) := by
+  intro f hf
+  have hseg := segFiles_segOf ix segid sh hg f hf
+  obtain ⟨rest, rfl⟩ := mem_segFiles_form _ sh f hf
+  have hname : segmentId ix segid ++ '.' :: rest = ix ++ ('_' :: segid ++ '.' :: rest) := by
+    simp [segmentId]
+  have htoc : tocGen ix (segmentId ix segid ++ '.' :: rest) = none := by
+    rw [hname]; exact tocGen_of_goodIx hix _
+  have hdot : startsWithDot (segmentId ix segid ++ '.' :: rest) = false := by
+    rw [hname]; exact startsWithDot_of_goodIx hix _
+  simp [cleanFiles, List.mem_filter, hdot, htoc, hseg]
+
+/-- **C02.toc_tmp_leaks.**  What happens to a TOC temp file `_<ix>_<g>.toc.<time>` that a writer which
+    died between creating it and renaming it left behind: (1) readers never take it for a TOC
+    (`pattern`), (2) no `clean_files` pass — whatever generation, segments and listing — selects it, and
+    (3) it is still in the directory after any later writer activity whose deletes only hit names one of
+    the two patterns matches or files of the temp storage `<ix>.tmp/…` (what `clean_files`,
+    `create_compound_file` and the per-document writer's temp storage delete; checked on every later
+    writer's real trace) and which renames only other names (its own fresh temp file).  So it leaks for
+    ever; it is harmless to every reader and writer, and the property text only promises the removal of
+    orphaned *segment* files (`next_commit`). -/
+theorem toc_tmp_leaks (ix : Name) (hix : GoodIx ix) (g : Nat) (t : List Char) :
+    let n := tocName ix g ++ '.' :: t
+    tocGen ix n = none ∧
+    (∀ gen sids listing, n ∉ cleanFiles ix gen sids listing) ∧
+    (∀ (fs : FS) (tr2 : List Event), n ∈ fs.listing →
+      (∀ m, Event.delete m ∈ tr2 → (tocGen ix m).isSome ∨ (segOf ix m).isSome ∨
+        (stripPrefix (ix ++ ['.', 't', 'm', 'p']) m).isSome) →
+      (∀ a b, Event.rename a b ∈ tr2 → a ≠ n) →
+      n ∈ (run fs tr2).listing) := by
+  intro n
+  have h1 : tocGen ix n = none := tocGen_tmp ix g t
+  have h2 : segOf ix n = none := by
+    show segOf ix (tocName ix g ++ '.' :: t) = none
+    unfold tocName
+    exact segOf_underscore hix _
+  have h3 : stripPrefix (ix ++ ['.', 't', 'm', 'p']) n = none := by
+    obtain ⟨c, cs, rfl, hc, _⟩ := hix
+    show stripPrefix _ (tocName (c :: cs) g ++ '.' :: t) = none
+    unfold tocName
+    simp only [List.cons_append, stripPrefix]
+    rw [if_neg hc]
+  refine ⟨h1, ?_, ?_⟩
+  · intro gen sids listing hmem
+    simp only [cleanFiles, List.mem_filter] at hmem
+    obtain ⟨_, hsel⟩ := hmem
+    rw [h1, h2] at hsel
+    split at hsel <;> simp at hsel
+  · intro fs tr2 hl hdel hren
+    apply run_keeps_bound fs tr2 n _ hl
+    intro e he
+    cases e with
+    | delete m =>
+      simp only [touchesName, beq_eq_false_iff_ne, ne_eq]
+      intro hmn
+      subst hmn
+      rcases hdel _ he with h | h | h
+      · rw [h1] at h; cases h
+      · rw [h2] at h; cases h
+      · rw [h3] at h; cases h
+    | rename a b =>
+      simp only [touchesName, beq_eq_false_iff_ne, ne_eq]
+      exact hren a b he
+    | _ => rfl
+
 /-! ### A concrete instance (non-vacuity of the hypotheses) -/
 namespace Example
 
@@ -265,6 +356,32 @@ example : (run fsCrashed tr2).listing.contains segFile = false := by decide
 example : Clean ix tocNew2 (run fsCrashed tr2) :=
   (next_commit ix tocOld tocNew tmpN fs0 tr consistent0 (by decide) 2 (fun _ => 40) tocNew2 tmpN2 tr2
     (by decide) (by decide)).2.2.2
+/-- a writer that dies with its TOC temp file open leaves it behind, the next commit (which does
+    clean up the orphaned segment file) does not remove it: `toc_tmp_leaks` instantiated -/
+def fsCrashedTmp : FS := crash (run fs0 (tr.take 6)) fun _ => 3
+def tmpN3 : Name := ['_', 'M', '_', '1', '.', 't', 'o', 'c', '.', '7']
+def tr3 : List Event :=
+  [.create segFile2, .write segFile2 70, .close segFile2,
+   .create tmpN3, .setToc tmpN3 tocNew2, .write tmpN3 50, .close tmpN3,
+   .rename tmpN3 toc1, .delete toc0, .delete segFile]
+example : CompleteCommit ix tocOld tocNew2 tmpN3 fsCrashedTmp tr3 = true := by decide
+example : CleansOrphans ix tocNew2 fsCrashedTmp tr3 = true := by decide
+example : (run fsCrashedTmp tr3).listing.contains tmpN = true := by decide
+example : tmpN ∈ (run fsCrashedTmp tr3).listing :=
+  (toc_tmp_leaks ix ⟨'M', [], rfl, by decide, by decide⟩ 1 ['9']).2.2 fsCrashedTmp tr3 (by decide)
+    (by intro m hm
+        simp only [tr3, List.mem_cons, List.not_mem_nil, or_false, reduceCtorEq, false_or,
+          Event.delete.injEq] at hm
+        rcases hm with rfl | rfl <;> decide)
+    (by intro a b hm
+        simp only [tr3, List.mem_cons, List.not_mem_nil, or_false, reduceCtorEq, false_or,
+          Event.rename.injEq] at hm
+        rw [hm.1]; decide)
+/-- `clean_codec` on the orphan of the example above: selected because its segment is unreferenced -/
+example : segFile ∈ cleanFiles ix 1 tocNew2.sids fsCrashed.listing :=
+  (clean_codec ix ['a'] ⟨true, [], false⟩ 1 tocNew2.sids fsCrashed.listing
+    ⟨'M', [], rfl, by decide, by decide⟩ (by decide) segFile (by decide)).2 ⟨by decide, by decide⟩
+
 /-- without the clean-up pass the predicate says no (and the orphan would stay) -/
 example : CleansOrphans ix tocNew2 fsCrashed (tr2.take 9) = false := by decide
 
